@@ -107,7 +107,10 @@ def random_sketch(rng, kind=None, small=False):
         mc, nr = rng.choice([(2**32 - 1, None), (10**6, 5), (2**40, 0), (70000, 3), (2**53, 100)])
         cls = impl.CM_CLASSES[kind]
         W, D = rng.choice([1, 2, 7, 33]), rng.choice([1, 2, 8])
-        sk = cls(W, D, mc) if nr is None else cls(W, D, mc, nr)
+        try:
+            sk = cls(W, D, mc) if nr is None else cls(W, D, mc, nr)
+        except ValueError:
+            sk = cls(W, D)        # a refused constructor is judged by C18
     elif kind == "hll":
         sk = impl.hyperloglog.HyperLogLog(rng.choice([7, 8, 12, 16]), rng.choice([0, 1, 2**63, 2**64 - 1, 2**63 + 12345]))
     else:
@@ -130,10 +133,18 @@ def random_sketch(rng, kind=None, small=False):
 def corner_sketches(rng):
     """Configurations at the edges of every parameter range (always part of the round trips)."""
     cm, hl, hh = impl.countmin, impl.hyperloglog.HyperLogLog, impl.heavyhitters.HeavyHitters
-    zoo = [cm.CountMinLinear(1, 1), cm.CountMinLinear(1), cm.CountMinLog16(1, 1), cm.CountMinLog8(1, 1),
-           cm.CountMinLog16(2, 1, 70000, 0), cm.CountMinLog8(3, 2, 2**63, 253), cm.CountMinLog16(2, 2, 2**63, 65533),
-           hl(7, 2**64 - 1), hl(16, 0), hl(7, 2**63),
-           hh(1), hh(1, 1, 1), hh(1, 4, 16), hh(2, 1, 255), hh(3, 2, 4, 0.999), hh(3, 2, 4, 1e-9)]
+    makers = [lambda: cm.CountMinLinear(1, 1), lambda: cm.CountMinLinear(1), lambda: cm.CountMinLog16(1, 1),
+              lambda: cm.CountMinLog8(1, 1), lambda: cm.CountMinLog16(2, 1, 70000, 0), lambda: cm.CountMinLog8(3, 2, 2**63, 253),
+              lambda: cm.CountMinLog16(2, 2, 2**63, 65533), lambda: hl(7, 2**64 - 1), lambda: hl(16, 0), lambda: hl(7, 2**63),
+              lambda: hl(9, 2**63 + 12345), lambda: hl(8, 2**64 - 4097),
+              lambda: hh(1), lambda: hh(1, 1, 1), lambda: hh(1, 4, 16), lambda: hh(2, 1, 255), lambda: hh(3, 2, 4, 0.999),
+              lambda: hh(3, 2, 4, 1e-9)]
+    zoo = []
+    for mk in makers:
+        try:
+            zoo.append(mk())
+        except ValueError:
+            pass                  # a refused constructor is judged by C18
     keys = impl.special_keys(rng)[:10]
     for i, sk in enumerate(zoo):
         for j, k in enumerate(keys[: (i % 4) * 3]):
